@@ -57,8 +57,9 @@ type witness struct {
 func TestCheck(t *testing.T) {
 	run := report.New("C20", "exploration")
 	defer run.Finish(t)
-	run.Rule("round trip: seeded random trees (depth 0..4, 0..40 files, empty/binary/compressible contents, names with spaces, dots, leading dots, unicode, punctuation, 200..255-byte names) x filter {nil, extension, directory prefix, not directory prefix} x recursive x source with/without trailing slash x destination absent/empty; oracle = equality of the maps relative path -> SHA-256 (selected source files vs. non-directory entries under the destination). confinement: archives written with archive/zip whose entry names carry '..' segments, absolute paths, backslashes, clashes, duplicates, empty/overlong names, with the destination 1..4 levels below the sandbox root and absent/empty/populated; oracle = snapshot (path, size, sha256, mtime, mode) of the sandbox outside the destination is unchanged; thorough: strace of a child process, every successful write-mode open / mkdir / rename / link / unlink path lies under the destination. distinct = distinct (filter, recursive, slash, destination state, tree depth, file-count bucket, selected-count bucket, name-class mask) round-trip classes plus distinct (hostile class set, destination depth, destination state, outcome) confinement classes")
+	run.Rule("round trip: seeded random trees (depth 0..4, 0..40 files, empty/binary/compressible contents, names with spaces, dots, leading dots, unicode, punctuation, 200..255-byte names) x filter {nil, extension, directory prefix, not directory prefix} x recursive x source with/without trailing slash x destination absent/empty; oracle = equality of the maps relative path -> (SHA-256, size) (selected source files vs. non-directory entries under the destination). For every fourth tree additionally, under all filter x recursive x trailing-slash combinations: (a) the destination is first filled by hand with other, mostly longer files at the same relative paths, (b) re-extraction: archive and extract, edit the source in place (files cut to a prefix, emptied, shortened with other content, grown, replaced at equal length, untouched, deleted, new), archive again and extract into the SAME destination; oracle there = every selected file of the current source is under the destination with exactly the source content, and nothing is there that is neither selected nor was there before the extraction. confinement: archives written with archive/zip whose entry names carry '..' segments, absolute paths, backslashes, clashes, duplicates, empty/overlong names, with the destination 1..4 levels below the sandbox root and absent/empty/populated; oracle = snapshot (path, size, sha256, mtime, mode) of the sandbox outside the destination is unchanged; thorough: strace of a child process, every successful write-mode open / mkdir / rename / link / unlink path lies under the destination. distinct = distinct (filter, recursive, slash, destination state, tree depth, file-count bucket, selected-count bucket, name-class mask) round-trip classes plus distinct (variant, filter, recursive, slash, depth, buckets, set of change kinds among the selected files) second-extraction classes plus distinct (hostile class set, destination depth, destination state, outcome) confinement classes")
 	run.Assume("the source directory is spelled as a clean absolute path with at most one trailing slash; no symbolic links in the source tree, in the destination or in the sandbox; file names contain no backslash or control character")
+	run.Assume("what a destination held before an extraction (left by an earlier extraction, e.g. of a file since deleted or no longer selected, or put there by hand) and is not selected now is pre-existing content, not something the extraction created: neither its presence nor its content is judged; only paths that are neither selected nor pre-existing count as extra")
 	run.Assume("the parent of the destination exists; the archive file lives outside the sandbox that is snapshotted")
 	run.Assume("absolute hostile entry names are rooted at the sandbox path, and the number of '..' segments never exceeds the depth of the destination below the sandbox root, so no hostile name resolves outside the harness-owned scratch tree")
 
@@ -114,6 +115,10 @@ type fileSpec struct {
 	Size int    `json:"size"`
 	Kind int    `json:"kind"` // content generator
 	Seed int64  `json:"seed"`
+	// derived content (second version of a file in the re-extraction variant):
+	// Op "prefix": the first Size bytes of From; Op "extend": From followed by Size-From.Size generated bytes
+	Op   string    `json:"op,omitempty"`
+	From *fileSpec `json:"from,omitempty"`
 }
 
 type treeSpec struct {
@@ -130,6 +135,12 @@ type rtCase struct {
 	Slash      bool     `json:"src_trailing_slash"`
 	DestExists bool     `json:"dest_exists"`
 	DestSlash  bool     `json:"dest_trailing_slash"`
+	// Variant "" extracts into a fresh destination. "re-extract": the tree is archived and extracted, the
+	// source is then changed in place into Tree2, archived again and extracted into the SAME destination.
+	// "prepopulated": the destination is first filled by hand with the files of Pre.
+	Variant string     `json:"variant,omitempty"`
+	Tree2   *treeSpec  `json:"tree2,omitempty"`
+	Pre     []fileSpec `json:"prepopulated,omitempty"`
 }
 
 const (
@@ -291,6 +302,15 @@ func genTree(rng *rand.Rand, idx, maxSize int) (treeSpec, int) {
 
 // content is a pure function of the spec, so a replay file reproduces the bytes.
 func content(f fileSpec) []byte {
+	if f.From != nil {
+		base := content(*f.From)
+		switch f.Op {
+		case "prefix":
+			return base[:min(f.Size, len(base))]
+		case "extend":
+			return append(base, content(fileSpec{Path: f.Path, Size: max(f.Size-len(base), 0), Kind: f.Kind, Seed: f.Seed})...)
+		}
+	}
 	b := make([]byte, f.Size)
 	if f.Size == 0 {
 		return b
@@ -427,24 +447,26 @@ func show(s string) string {
 	return fmt.Sprintf("%q", s)
 }
 
-// runCombo archives src (already materialized) and extracts it below work; it returns the first
-// divergence and the number of selected files.
-func runCombo(c *rtCase, src string, srcSums map[string]string, work string, n int) (*vio, int) {
-	srcArg := src
-	if c.Slash {
-		srcArg += "/"
-	}
+// selected is the reference selection: the files of the tree chosen by (filter, recursive), with the
+// SHA-256 and the size of their content.
+func selected(c *rtCase, fl []fileSpec, src string, sums map[string]string) (map[string]string, map[string]int) {
 	sel := selector(c, src)
 	want := map[string]string{}
-	for _, f := range c.Tree.Files {
+	sizes := map[string]int{}
+	for _, f := range fl {
 		if !c.Recursive && strings.Contains(f.Path, "/") {
 			continue
 		}
 		if sel != nil && !sel(src+"/"+f.Path) {
 			continue
 		}
-		want[f.Path] = srcSums[f.Path]
+		want[f.Path] = sums[f.Path]
+		sizes[f.Path] = f.Size
 	}
+	return want, sizes
+}
+
+func qualifiers(c *rtCase) string {
 	q := ""
 	if !c.Recursive {
 		q += "/nonrecursive"
@@ -452,51 +474,62 @@ func runCombo(c *rtCase, src string, srcSums map[string]string, work string, n i
 	if c.Slash {
 		q += "/trailing-slash"
 	}
-	zipPath := filepath.Join(work, fmt.Sprintf("a%d.zip", n))
-	dest := filepath.Join(work, fmt.Sprintf("out%d", n))
-	defer os.Remove(zipPath)
-	defer os.RemoveAll(dest)
-	if c.DestExists {
-		if err := os.Mkdir(dest, 0o755); err != nil {
-			return &vio{"harness/mkdir", err.Error()}, len(want)
-		}
+	return q
+}
+
+// zipUnzip runs ZipFolder(src) and UnzipToFolder(dest) under recover; tag ("" | "/re-extract" |
+// "/prepopulated") names the variant in the signature of a failing call.
+func zipUnzip(c *rtCase, src, zipPath, dest, tag string, nfiles, nsel int) *vio {
+	srcArg, destArg := src, dest
+	if c.Slash {
+		srcArg += "/"
 	}
-	destArg := dest
 	if c.DestSlash {
 		destArg += "/"
 	}
+	q := qualifiers(c) + tag
 	var err error
 	var pan any
 	func() {
 		defer func() { pan = recover() }()
-		err = files.ZipFolder(srcArg, zipPath, sel, c.Recursive)
+		err = files.ZipFolder(srcArg, zipPath, selector(c, src), c.Recursive)
 	}()
 	if pan != nil {
-		return &vio{"roundtrip/zip-panic" + q, fmt.Sprintf("ZipFolder panicked: %v", pan)}, len(want)
+		return &vio{"roundtrip/zip-panic" + q, fmt.Sprintf("ZipFolder panicked: %v", pan)}
 	}
 	if err != nil {
-		return &vio{"roundtrip/zip-error" + q, fmt.Sprintf("ZipFolder of a readable tree of %d files failed: %v", len(c.Tree.Files), err)}, len(want)
+		return &vio{"roundtrip/zip-error" + q, fmt.Sprintf("ZipFolder of a readable tree of %d files failed: %v", nfiles, err)}
 	}
 	func() {
 		defer func() { pan = recover() }()
 		err = files.UnzipToFolder(zipPath, destArg)
 	}()
-	q2 := ""
+	q2 := tag
 	if c.DestSlash {
-		q2 = "/dest-trailing-slash"
+		q2 = "/dest-trailing-slash" + tag
 	}
 	if pan != nil {
-		return &vio{"roundtrip/unzip-panic" + q2, fmt.Sprintf("UnzipToFolder panicked on an archive made by ZipFolder: %v", pan)}, len(want)
+		return &vio{"roundtrip/unzip-panic" + q2, fmt.Sprintf("UnzipToFolder panicked on an archive made by ZipFolder: %v", pan)}
 	}
 	if err != nil {
-		return &vio{"roundtrip/unzip-error" + q2, fmt.Sprintf("UnzipToFolder failed on an archive made by ZipFolder (%d selected files): %v", len(want), err)}, len(want)
+		return &vio{"roundtrip/unzip-error" + q2, fmt.Sprintf("UnzipToFolder failed on an archive made by ZipFolder (%d selected files): %v", nsel, err)}
 	}
+	return nil
+}
+
+// compare checks the destination against the selection. Paths in preexisting (what the destination held
+// before this extraction) are not judged when they are not selected: the extraction did not create them.
+// prev (may be nil) holds the SHA-256 the selected paths had in the destination before, to tell a file
+// that was not rewritten at all from one that was rewritten wrongly.
+func compare(c *rtCase, want map[string]string, sizes map[string]int, allSums map[string]string, dest string,
+	preexisting map[string]string, tag string) (*vio, map[string]string) {
+	q := qualifiers(c) + tag
 	got, gotSizes, err := hashTree(dest)
 	if err != nil {
 		if len(want) == 0 && os.IsNotExist(err) {
 			got = map[string]string{} // nothing selected and no destination made: nothing is missing or extra
 		} else {
-			return &vio{"roundtrip/dest-unreadable", fmt.Sprintf("cannot read the destination back: %v", err)}, len(want)
+			return &vio{"roundtrip/dest-unreadable", fmt.Sprintf("cannot read the destination back: %v", err)}, nil
 		}
 	}
 	var missing, extra, differ []string
@@ -508,48 +541,297 @@ func runCombo(c *rtCase, src string, srcSums map[string]string, work string, n i
 	for p, s := range got {
 		w, ok := want[p]
 		if !ok {
-			extra = append(extra, p)
-		} else if w != s {
+			if _, was := preexisting[p]; !was {
+				extra = append(extra, p)
+			}
+		} else if w != s || gotSizes[p] != int64(sizes[p]) {
 			differ = append(differ, p)
 		}
 	}
 	sort.Strings(missing)
 	sort.Strings(extra)
 	sort.Strings(differ)
-	head := fmt.Sprintf("filter=%s(%s) recursive=%v: ", c.Filter, show(c.Param), c.Recursive)
+	head := fmt.Sprintf("filter=%s(%s) recursive=%v", c.Filter, show(c.Param), c.Recursive)
+	switch tag {
+	case "/re-extract":
+		head += ", second extraction into the same destination after the source was changed"
+	case "/prepopulated":
+		head += ", destination filled by hand before the extraction"
+	}
+	head += ": "
 	if len(missing) > 0 {
-		return &vio{"roundtrip/missing" + q, head + fmt.Sprintf("%d of %d selected files are not under the destination, first %s (destination has %d files, %d of them unexpected)", len(missing), len(want), show(missing[0]), len(got), len(extra))}, len(want)
+		return &vio{"roundtrip/missing" + q, head + fmt.Sprintf("%d of %d selected files are not under the destination, first %s (destination has %d files, %d of them unexpected)", len(missing), len(want), show(missing[0]), len(got), len(extra))}, got
 	}
 	if len(extra) > 0 {
 		kind := "not selected by (filter, recursive)"
-		if _, ok := srcSums[extra[0]]; !ok {
+		if _, ok := allSums[extra[0]]; !ok {
 			kind = "not a path of the source tree"
 		}
-		return &vio{"roundtrip/extra" + q, head + fmt.Sprintf("%d entries under the destination that were not selected, first %s (%s); selected %d", len(extra), show(extra[0]), kind, len(want))}, len(want)
+		return &vio{"roundtrip/extra" + q, head + fmt.Sprintf("%d entries under the destination that were not selected and were not there before, first %s (%s); selected %d", len(extra), show(extra[0]), kind, len(want))}, got
 	}
 	if len(differ) > 0 {
-		p := differ[0]
-		var size int
-		for _, f := range c.Tree.Files {
-			if f.Path == p {
-				size = f.Size
+		// classify by the most telling of the differing files: a stale tail first
+		class, p := "", differ[0]
+		for _, d := range differ {
+			if cl := contentClass(d, want, sizes, allSums, got, gotSizes, dest, preexisting); class == "" || (cl == "stale-tail" && class != "stale-tail") {
+				class, p = cl, d
 			}
 		}
-		class := "corrupt"
-		if strings.HasPrefix(got[p], "non-regular:") {
-			class = "non-regular"
-		} else if gotSizes[p] < int64(size) {
-			class = "truncated"
-		} else {
-			for op, s := range srcSums {
-				if op != p && s == got[p] {
-					class = "swapped"
-				}
-			}
+		extraNote := ""
+		if old, ok := preexisting[p]; ok {
+			extraNote = fmt.Sprintf("; before the extraction the destination held sha256 %.12s… at this path", old)
 		}
-		return &vio{"roundtrip/content/" + class, head + fmt.Sprintf("%d files differ in content, first %s: source %d bytes sha256 %s…, destination %d bytes sha256 %s…", len(differ), show(p), size, want[p][:12], gotSizes[p], got[p][:12])}, len(want)
+		return &vio{"roundtrip/content/" + class, head + fmt.Sprintf("%d files differ in content, e.g. %s: source %d bytes sha256 %.12s…, destination %d bytes sha256 %.12s…%s", len(differ), show(p), sizes[p], want[p], gotSizes[p], got[p], extraNote)}, got
 	}
-	return nil, len(want)
+	return nil, got
+}
+
+// contentClass names how the destination file at p differs from the source:
+// stale-tail (source content followed by left-over bytes), stale-version (still exactly what the
+// destination held before), non-regular, truncated, swapped (content of another source file), corrupt.
+func contentClass(p string, want map[string]string, sizes map[string]int, allSums, got map[string]string, gotSizes map[string]int64,
+	dest string, preexisting map[string]string) string {
+	switch {
+	case strings.HasPrefix(got[p], "non-regular:"):
+		return "non-regular"
+	case gotSizes[p] > int64(sizes[p]):
+		if b, err := os.ReadFile(filepath.Join(dest, filepath.FromSlash(p))); err == nil && len(b) > sizes[p] && sum(b[:sizes[p]]) == want[p] {
+			return "stale-tail"
+		}
+	}
+	if old, ok := preexisting[p]; ok && old == got[p] {
+		return "stale-version"
+	}
+	if gotSizes[p] < int64(sizes[p]) {
+		return "truncated"
+	}
+	for op, s := range allSums {
+		if op != p && s == got[p] {
+			return "swapped"
+		}
+	}
+	return "corrupt"
+}
+
+// writeFiles writes the given files below root (used to fill a destination by hand).
+func writeFiles(root string, fl []fileSpec) (map[string]string, error) {
+	sums := map[string]string{}
+	for _, f := range fl {
+		p := filepath.Join(root, filepath.FromSlash(f.Path))
+		if err := os.MkdirAll(filepath.Dir(p), 0o755); err != nil {
+			return nil, err
+		}
+		b := content(f)
+		if err := os.WriteFile(p, b, 0o644); err != nil {
+			return nil, err
+		}
+		sums[f.Path] = sum(b)
+	}
+	return sums, nil
+}
+
+// runCombo archives src (already materialized, holding c.Tree) and extracts it below work; it returns the
+// first divergence and the number of selected files. Variant "prepopulated" fills the destination first.
+func runCombo(c *rtCase, src string, srcSums map[string]string, work string, n int) (*vio, int) {
+	want, sizes := selected(c, c.Tree.Files, src, srcSums)
+	zipPath := filepath.Join(work, fmt.Sprintf("a%d.zip", n))
+	dest := filepath.Join(work, fmt.Sprintf("out%d", n))
+	defer os.Remove(zipPath)
+	defer os.RemoveAll(dest)
+	tag := ""
+	var pre map[string]string
+	if c.Variant == "prepopulated" {
+		tag = "/prepopulated"
+		var err error
+		if pre, err = writeFiles(dest, c.Pre); err != nil {
+			return &vio{"harness/prepopulate", err.Error()}, len(want)
+		}
+	} else if c.DestExists {
+		if err := os.Mkdir(dest, 0o755); err != nil {
+			return &vio{"harness/mkdir", err.Error()}, len(want)
+		}
+	}
+	if v := zipUnzip(c, src, zipPath, dest, tag, len(c.Tree.Files), len(want)); v != nil {
+		return v, len(want)
+	}
+	v, _ := compare(c, want, sizes, srcSums, dest, pre, tag)
+	return v, len(want)
+}
+
+// mutateTree draws the second version of a tree: files shrunk to a prefix, emptied, shrunk with other
+// content, grown, replaced at equal length, left alone, deleted; plus new files. ops counts per operation.
+func mutateTree(rng *rand.Rand, ts treeSpec) (treeSpec, map[string]string) {
+	t2 := treeSpec{SrcName: ts.SrcName, Dirs: append([]string(nil), ts.Dirs...)}
+	ops := map[string]string{} // path -> operation
+	forced := map[string]bool{}
+	used := map[string]bool{}
+	for _, d := range ts.Dirs {
+		used[d] = true
+	}
+	for _, f := range ts.Files {
+		used[f.Path] = true
+	}
+	for _, f := range ts.Files {
+		f := f
+		op := ""
+		switch x := rng.Intn(100); {
+		case x < 20:
+			op = "shrink-prefix"
+		case x < 30:
+			op = "empty"
+		case x < 40:
+			op = "shrink-other"
+		case x < 55:
+			op = "grow"
+		case x < 70:
+			op = "same-length"
+		case x < 95:
+			op = "unchanged"
+		default:
+			op = "delete"
+		}
+		// every tree that can, has at least one prefix-shrunk and one emptied file
+		if f.Size >= 2 && !forced["shrink-prefix"] {
+			op = "shrink-prefix"
+		} else if f.Size >= 1 && !forced["empty"] {
+			op = "empty"
+		}
+		if (op == "shrink-prefix" || op == "shrink-other") && f.Size < 2 || (op == "empty" || op == "same-length") && f.Size == 0 {
+			op = "unchanged"
+		}
+		forced[op] = true
+		ops[f.Path] = op
+		switch op {
+		case "shrink-prefix":
+			t2.Files = append(t2.Files, fileSpec{Path: f.Path, Size: 1 + rng.Intn(f.Size-1), Op: "prefix", From: &f})
+		case "empty":
+			t2.Files = append(t2.Files, fileSpec{Path: f.Path, Size: 0, Op: "prefix", From: &f})
+		case "shrink-other":
+			t2.Files = append(t2.Files, fileSpec{Path: f.Path, Size: 1 + rng.Intn(f.Size-1), Kind: rng.Intn(5), Seed: rng.Int63()})
+		case "grow":
+			add := 1 + rng.Intn(4096)
+			if rng.Intn(2) == 0 {
+				t2.Files = append(t2.Files, fileSpec{Path: f.Path, Size: f.Size + add, Kind: rng.Intn(5), Seed: rng.Int63(), Op: "extend", From: &f})
+			} else {
+				t2.Files = append(t2.Files, fileSpec{Path: f.Path, Size: f.Size + add, Kind: rng.Intn(5), Seed: rng.Int63()})
+			}
+		case "same-length":
+			t2.Files = append(t2.Files, fileSpec{Path: f.Path, Size: f.Size, Kind: rng.Intn(2), Seed: rng.Int63()})
+		case "unchanged":
+			t2.Files = append(t2.Files, f)
+		}
+	}
+	for i := 1 + rng.Intn(2); i > 0; i-- {
+		dir := ""
+		if len(ts.Dirs) > 0 && i == 1 {
+			dir = ts.Dirs[rng.Intn(len(ts.Dirs))] + "/"
+		}
+		name := fmt.Sprintf("%snew file %d.txt", dir, i)
+		if used[name] {
+			continue
+		}
+		t2.Files = append(t2.Files, fileSpec{Path: name, Size: rng.Intn(3000), Kind: rng.Intn(5), Seed: rng.Int63()})
+		ops[name] = "new"
+	}
+	return t2, ops
+}
+
+// applyTree changes the source directory, which holds tree from, in place into tree to.
+func applyTree(src string, from, to treeSpec) (map[string]string, error) {
+	for _, d := range to.Dirs {
+		if err := os.MkdirAll(filepath.Join(src, filepath.FromSlash(d)), 0o755); err != nil {
+			return nil, err
+		}
+	}
+	keep := map[string]bool{}
+	sums := map[string]string{}
+	for _, f := range to.Files {
+		keep[f.Path] = true
+		p := filepath.Join(src, filepath.FromSlash(f.Path))
+		b := content(f)
+		sums[f.Path] = sum(b)
+		var err error
+		if f.Op == "prefix" && f.From != nil && f.From.Path == f.Path {
+			err = os.Truncate(p, int64(f.Size))
+		} else {
+			err = os.WriteFile(p, b, 0o644)
+		}
+		if err != nil {
+			return nil, err
+		}
+	}
+	for _, f := range from.Files {
+		if !keep[f.Path] {
+			if err := os.Remove(filepath.Join(src, filepath.FromSlash(f.Path))); err != nil {
+				return nil, err
+			}
+		}
+	}
+	// the harness's own edit is checked before anything is judged against it
+	now, _, err := hashTree(src)
+	if err != nil {
+		return nil, err
+	}
+	if len(now) != len(sums) {
+		return nil, fmt.Errorf("source holds %d files after the edit, %d expected", len(now), len(sums))
+	}
+	for p, s := range sums {
+		if now[p] != s {
+			return nil, fmt.Errorf("source file %q does not hold its second version", p)
+		}
+	}
+	return sums, nil
+}
+
+// reExtract runs the re-extraction variant for a batch of cases sharing one tree pair: every case extracts
+// version 1 into its own destination (judged like a fresh round trip), then the source is edited in place
+// once, then every case archives version 2 and extracts it into the same destination. report receives the
+// verdict per case (nil = held) and the number of files selected from version 2.
+func reExtract(cs []*rtCase, src string, sums1 map[string]string, work string, report func(c *rtCase, v *vio, nsel int)) error {
+	type st struct {
+		dest, zip string
+		got1      map[string]string
+		dead      bool
+	}
+	sts := make([]*st, len(cs))
+	defer func() {
+		for _, s := range sts {
+			if s != nil {
+				os.RemoveAll(s.dest)
+				os.Remove(s.zip)
+			}
+		}
+	}()
+	for i, c := range cs {
+		s := &st{dest: filepath.Join(work, fmt.Sprintf("re-out%d", i)), zip: filepath.Join(work, fmt.Sprintf("re-a%d.zip", i))}
+		sts[i] = s
+		want, sizes := selected(c, c.Tree.Files, src, sums1)
+		v := zipUnzip(c, src, s.zip, s.dest, "", len(c.Tree.Files), len(want))
+		if v == nil {
+			v, s.got1 = compare(c, want, sizes, sums1, s.dest, nil, "")
+		}
+		if v != nil {
+			s.dead = true
+			report(c, v, len(want))
+		}
+	}
+	sums2, err := applyTree(src, cs[0].Tree, *cs[0].Tree2)
+	if err != nil {
+		return err
+	}
+	for i, c := range cs {
+		s := sts[i]
+		if s.dead {
+			continue
+		}
+		want, sizes := selected(c, c.Tree2.Files, src, sums2)
+		v := zipUnzip(c, src, s.zip, s.dest, "/re-extract", len(c.Tree2.Files), len(want))
+		if v == nil {
+			v, _ = compare(c, want, sizes, sums2, s.dest, s.got1, "/re-extract")
+		}
+		report(c, v, len(want))
+	}
+	return nil
 }
 
 func (h *harness) roundTrips(trees, maxSize int) {
@@ -679,6 +961,105 @@ func (h *harness) oneTree(idx, maxSize int) {
 			run.Violation("roundtrip/source-modified", "after the round trips the source tree differs at "+show(changed), witness{Kind: "roundtrip", RT: c})
 		}
 	}
+	if idx%4 == 0 {
+		h.secondExtractions(rng, idx, ts, src, srcSums, base, dirParam, depth)
+	}
+}
+
+// secondExtractions runs, for a share of the trees, the variants in which the destination is not fresh:
+// filled by hand with other (mostly longer) files at the same relative paths, and re-extraction after the
+// source has changed. Every (filter, recursive, trailing slash) combination is run for both.
+func (h *harness) secondExtractions(rng *rand.Rand, idx int, ts treeSpec, src string, srcSums map[string]string, base, dirParam string, depth int) {
+	run := h.run
+	total := 0
+	for _, f := range ts.Files {
+		total += f.Size
+	}
+	if total > 3<<20 {
+		run.Add("rx_trees_skipped_over_3MiB", 1) // sixteen destinations are alive at once
+		return
+	}
+	run.Add("rx_trees", 1)
+	// by hand: 60% longer, 20% same length, 20% shorter, always other content; plus one unrelated file
+	var pre []fileSpec
+	for i, f := range ts.Files {
+		size := f.Size + 1 + rng.Intn(4096)
+		if x := rng.Intn(10); i > 0 && x < 2 {
+			size = f.Size
+		} else if i > 0 && x < 4 {
+			size = rng.Intn(f.Size + 1)
+		}
+		pre = append(pre, fileSpec{Path: f.Path, Size: size, Kind: 0, Seed: rng.Int63()})
+	}
+	pre = append(pre, fileSpec{Path: "left by somebody else.dat", Size: 100, Kind: 0, Seed: rng.Int63()})
+	t2, ops := mutateTree(rng, ts)
+	for _, op := range ops {
+		run.Add("rx_source_files_"+op, 1)
+	}
+	mk := func(variant, filter string, rec, slash bool, n int) *rtCase {
+		c := &rtCase{Tree: ts, Filter: filter, Recursive: rec, Slash: slash, DestSlash: (idx+n)%5 == 0, Variant: variant}
+		switch filter {
+		case "ext":
+			c.Param = ".txt"
+		case "dir", "notdir":
+			c.Param = dirParam
+		}
+		return c
+	}
+	judge := func(c *rtCase, v *vio, nsel int, class string) {
+		run.Eval(1)
+		run.Add("rx_combinations_"+c.Variant, 1)
+		run.Add("rx_files_compared", int64(nsel))
+		if v != nil {
+			if strings.HasPrefix(v.sig, "harness/") {
+				run.Inconclusive(v.sig + ": " + v.what)
+				return
+			}
+			run.Add("rx_violations_"+c.Variant, 1)
+			run.Violation(v.sig, v.what, witness{Kind: "roundtrip", RT: c})
+			return
+		}
+		if nsel > 0 {
+			run.DistinctStr(fmt.Sprintf("rx|%s|%s|%v|%v|d%d|n%s|s%s|%s", c.Variant, c.Filter, c.Recursive, c.Slash, depth, bucket(len(ts.Files)), bucket(nsel), class))
+		}
+	}
+	var batch []*rtCase
+	n := 100
+	for _, filter := range []string{"nil", "ext", "dir", "notdir"} {
+		for _, rec := range []bool{true, false} {
+			for _, slash := range []bool{false, true} {
+				n++
+				c := mk("prepopulated", filter, rec, slash, n)
+				c.Pre = pre
+				v, nsel := runCombo(c, src, srcSums, base, n)
+				judge(c, v, nsel, "")
+				r := mk("re-extract", filter, rec, slash, n)
+				r.Tree2 = &t2
+				batch = append(batch, r)
+			}
+		}
+	}
+	err := reExtract(batch, src, srcSums, base, func(c *rtCase, v *vio, nsel int) {
+		// class = which kinds of change the selected files went through
+		seen := map[string]bool{}
+		want, _ := selected(c, t2.Files, src, nil)
+		for p := range want {
+			seen[ops[p]] = true
+		}
+		var l []string
+		for k := range seen {
+			l = append(l, k)
+		}
+		sort.Strings(l)
+		judge(c, v, nsel, strings.Join(l, "+"))
+		if v == nil && run.SampleN() < 3 && nsel >= 3 && c.Filter == "nil" && c.Recursive && !c.Slash {
+			run.Sample(map[string]any{"kind": "roundtrip", "variant": "re-extract", "filter": c.Filter, "recursive": c.Recursive,
+				"files_version_1": len(ts.Files), "files_version_2": len(t2.Files), "changes_among_selected": l, "selected_and_reproduced": nsel})
+		}
+	})
+	if err != nil {
+		run.Inconclusive(fmt.Sprintf("tree %d: cannot edit the source in place: %v", idx, err))
+	}
 }
 
 // ---------------------------------------------------------------------------------------------
@@ -715,7 +1096,22 @@ func (h *harness) replay(path string) {
 			return
 		}
 		run.Sample(map[string]any{"kind": "roundtrip", "filter": w.RT.Filter, "recursive": w.RT.Recursive, "files": len(w.RT.Tree.Files)})
-		if v, _ := runCombo(w.RT, src, sums, base, 1); v != nil {
+		if w.RT.Variant == "re-extract" && w.RT.Tree2 != nil {
+			var first *vio
+			err := reExtract([]*rtCase{w.RT}, src, sums, base, func(c *rtCase, v *vio, nsel int) {
+				if v != nil && first == nil {
+					first = v
+				}
+			})
+			if err != nil {
+				run.Inconclusive("cannot edit the source in place: " + err.Error())
+				return
+			}
+			if first != nil {
+				run.Violation(first.sig, first.what, w)
+				return
+			}
+		} else if v, _ := runCombo(w.RT, src, sums, base, 1); v != nil {
 			run.Violation(v.sig, v.what, w)
 			return
 		}
